@@ -52,11 +52,7 @@ func (st *State) load(addr Value, t types.Type) Value {
 		}
 		return st.muxValues(gs, vals)
 	case Mux:
-		vals := make([]Value, len(p.V))
-		for i, a := range p.V {
-			vals[i] = st.load(a, t)
-		}
-		return st.muxValues(p.G, vals)
+		return st.mapMux(p, func(a Value) Value { return st.load(a, t) })
 	}
 	panic(st.unsupported(fmt.Sprintf("load through %T", addr)))
 }
@@ -107,14 +103,14 @@ func (st *State) store(addr Value, t types.Type, v Value) {
 			}
 		}
 	case Mux:
-		for i, a := range p.V {
+		st.forEachAlt(p, func(i int, a Value) {
 			cur := st.load(a, t)
 			nv, ok := st.mergeValues(p.G[i], v, cur)
 			if !ok {
 				panic(st.unsupported("store of unmergeable value through guarded pointer"))
 			}
 			st.store(a, t, nv)
-		}
+		})
 	default:
 		panic(st.unsupported(fmt.Sprintf("store through %T", addr)))
 	}
@@ -122,14 +118,63 @@ func (st *State) store(addr Value, t types.Type, v Value) {
 
 // mapMux applies f to every alternative of a (possibly) guarded value.
 func (st *State) mapMux(v Value, f func(Value) Value) Value {
-	if mx, ok := v.(Mux); ok {
-		vals := make([]Value, len(mx.V))
-		for i, a := range mx.V {
-			vals[i] = f(a)
-		}
-		return st.muxValues(mx.G, vals)
+	mx, ok := v.(Mux)
+	if !ok {
+		return f(v)
 	}
-	return f(v)
+	var gs []*term.Node
+	var vals []Value
+	st.forEachAlt(mx, func(i int, a Value) {
+		r := f(a)
+		gs = append(gs, mx.G[i])
+		vals = append(vals, r)
+	})
+	if len(vals) == 0 {
+		// every alternative panics: each dropped alternative pushed the negation of its guard,
+		// so the path condition is contradictory now
+		panic(pathEnd{"panic"})
+	}
+	return st.muxValues(gs, vals)
+}
+
+// forEachAlt runs f for every alternative with the alternative's guard in
+// force (obligations and panics inside f are conditional on it).
+func (st *State) forEachAlt(mx Mux, f func(i int, a Value)) {
+	saved := st.guard
+	defer func() { st.guard = saved }()
+	for i, a := range mx.V {
+		g := mx.G[i]
+		if saved != nil {
+			g = st.b.BAnd(saved, g)
+		}
+		if g == st.b.False {
+			continue
+		}
+		st.guard = g
+		func() {
+			defer func() {
+				if e := recover(); e != nil {
+					if _, isDrop := e.(altDropped); isDrop {
+						return
+					}
+					panic(e)
+				}
+			}()
+			f(i, a)
+		}()
+	}
+}
+
+// demux forks over the alternatives of a guarded value.
+func (st *State) demux(v Value) Value {
+	for {
+		mx, ok := v.(Mux)
+		if !ok {
+			return v
+		}
+		k := st.choose(mx.G)
+		v = mx.V[k]
+	}
 }
 
 // ---------------------------------------------------------------- integer helpers
